@@ -27,7 +27,8 @@ pub open spec fn matches_ok(ms: Seq<WordMatch>) -> bool { ms.len() <= 0x10_0000 
 pub open spec fn tm_post(rtext: &TextRef, qtext: &TextRef, ret: (Vec<WordMatch>, Vec<WordMatch>)) -> bool {
     matches_for_text(ret.0@, rtext) && matches_for_text(ret.1@, qtext) && matches_ok(ret.0@) && matches_ok(ret.1@)
 }
-// ---- recall side of text_match (C03 C13): TM-some.  The first query word is an exact prefix of (while still being typed), or
+//@include edit_forms.rs
+// ---- recall side of text_match (C03 C04 C13): TM-some.  The first query word is an exact prefix of (while still being typed), or
 // the same characters as, word j of the record text ==> the record gets at least one match
 pub open spec fn tchars(t: &TextRef, k: int) -> Seq<char> { t.chars@.subrange(t.words@[k].slice.0 as int, t.words@[k].slice.1 as int) }
 pub open spec fn starts_with(w: Seq<char>, p: Seq<char>) -> bool { p.len() <= w.len() && forall|t: int| 0 <= t < p.len() ==> w[t] == p[t] }
@@ -37,6 +38,13 @@ pub open spec fn pair_prefix(rtext: &TextRef, qtext: &TextRef, j: int) -> bool {
 pub open spec fn pair_equal(rtext: &TextRef, qtext: &TextRef, j: int) -> bool {
     0 <= j < rtext.words@.len() && qtext.words@.len() >= 1 && tchars(rtext, j).len() == tchars(qtext, 0).len() && starts_with(tchars(rtext, j), tchars(qtext, 0))
 }
+// C04: the first query word (still being typed) is one explicit edit away from word j of the record text, which has at least five
+// characters, three of them different
+pub open spec fn pair_edit1(rtext: &TextRef, qtext: &TextRef, j: int, p: int) -> bool {
+    0 <= j < rtext.words@.len() && qtext.words@.len() >= 1 && !qtext.words@[0].fin && tchars(rtext, j).len() >= 5 && three_letters(tchars(rtext, j))
+    && (is_sub(tchars(rtext, j), tchars(qtext, 0), p) || is_ins(tchars(rtext, j), tchars(qtext, 0), p) || is_del(tchars(rtext, j), tchars(qtext, 0), p) || is_trans(tchars(rtext, j), tchars(qtext, 0), p))
+}
 pub open spec fn tm_some(rtext: &TextRef, qtext: &TextRef, ret: (Vec<WordMatch>, Vec<WordMatch>)) -> bool {
-    (exists|j: int| #[trigger] pair_prefix(rtext, qtext, j) || pair_equal(rtext, qtext, j)) ==> ret.0@.len() >= 1
+    ((exists|j: int| #[trigger] pair_prefix(rtext, qtext, j) || pair_equal(rtext, qtext, j)) ==> ret.0@.len() >= 1)
+    && ((exists|j: int, p: int| #[trigger] pair_edit1(rtext, qtext, j, p)) ==> ret.0@.len() >= 1)
 }
